@@ -119,8 +119,15 @@ def gen_config(rng, tier, profile):
   s['QUEUE_LOW_WATERMARK_PCT'] = rng.choice([0.1, 0.25, 0.5, 0.8, 0.8, 1.0])
   s['MAX_QUEUE_SIZE_HARD_PCT'] = rng.choice([1.25, 1.25, 1.5, 2.0, 1.0])
   s['DESTINATION_PROTOCOL'] = rng.choice(['pickle', 'pickle', 'line'])
-  s['TIME_TO_DEFER_SENDING'] = rng.choice([0.0001, 0.0001, 0.01, 0.5])
-  if profile in ('c07', 'c15') and rng.random() < 0.3:
+  s['TIME_TO_DEFER_SENDING'] = rng.choice([0.0001, 0.0001, 0.01, 0.5, 0])
+  if profile == 'c07' and rng.random() < 0.05:
+    # a long-unreachable destination: a backlog several hundred batches deep
+    s['MAX_QUEUE_SIZE'] = 2000
+    s['MAX_DATAPOINTS_PER_MESSAGE'] = rng.choice([1, 2])
+    s['TIME_TO_DEFER_SENDING'] = rng.choice([0, 0, 0.0001])
+    s['DYNAMIC_ROUTER'] = False
+    s['deep_backlog'] = True
+  if profile in ('c07', 'c15', 'c09') and rng.random() < (0.3 if profile != 'c09' else 0.2):
     # connection-quality resets: the relay compares what a destination was sent with
     # what was received over the last instrumentation interval
     s['CARBON_METRIC_INTERVAL'] = rng.choice([2, 5, 10])
@@ -208,6 +215,8 @@ def gen_plan(rng, cfg, tier, profile):
       if rng.random() < 0.8:
         ops.append(['conn_ok', i])
   mq = s['MAX_QUEUE_SIZE']
+  if s.get('deep_backlog'):
+    ops = [['flood', rng.choice([350, 500])]] + ops
   for _ in range(n):
     k = rng.choice(kinds)
     if k == 'arrive':
